@@ -13,7 +13,7 @@ LEVEL = 'other'
 EXPLANATION = (
     'Decides the membership conditions: (R1) build_plan pushes a source path to `transfer` exactly on (not excluded AND needs_transfer), counts it as '
     'skipped exactly on (not excluded AND NOT needs_transfer), pushes a destination path to `delete` exactly on (with_delete AND absent from src AND not '
-    'excluded); both loops range over the whole maps with the loop path as operand everywhere; both vectors are sorted before return; (R2) the decision DAG of '
+    'excluded); both loops range over the whole maps with the loop path as operand everywhere; both vectors are sorted before return; a plan built by one merge pass over the two sorted listings is accepted only as NO-VERDICT, and reported when its keys are compared as strings or bytes (the maps iterate in Path component order); is_excluded must be called with paths relative to the tree root at every call site; glob_match must walk characters, not bytes; (R2) the decision DAG of '
     'needs_transfer is "dst absent OR size differs OR mtime differs" (exhaustive over 5 valuations; Lean mirror cross-checked); (R3) is_excluded dispatches on '
     '`/` in the pattern between whole-path and per-Normal-component matching with the trailing slash trimmed and empty patterns skipped, and in glob_match every '
     'literal comparison of a pattern character is guarded by the not-equal edge of each metacharacter test (`?`, `*`) of that character; characters flow only into ==; '
